@@ -142,6 +142,52 @@ def write_replay(pid, v, seed, hashseed):
     return path
 
 
+def run_sequences(pid, seed, cfg, seqs, wall, hashseed=0):
+    jobs = [({"property": pid, "mode": "sequence", "seed": seed, "indices": seq, "tier_cfg": cfg}, hashseed) for seq in seqs]
+    outs = []
+    for lines in run_workers(jobs, wall):
+        d = None
+        for l in lines:
+            if l.get("type") == "sequence":
+                d = {int(k): v for k, v in l["digests"].items()}
+        outs.append(d)
+    return outs
+
+
+def process_history_violation(pid, seed, cfg, idx, W, wall):
+    """Case idx gave different outcomes in the sweep worker (predecessors idx-W, idx-2W, ...) and in
+    the echo worker (predecessors 0..idx-1).  Reproduce in fresh interpreters, then shrink the
+    predecessor lists; the replay file names both."""
+    pred_a = list(range(idx % W, idx, W))
+    pred_b = list(range(0, idx))
+    a, b = run_sequences(pid, seed, cfg, [pred_a + [idx], pred_b + [idx]], wall)
+    if a is None or b is None or a.get(idx) == b.get(idx):
+        return None
+    # which side differs from a fresh interpreter running the history alone?
+    alone, = run_sequences(pid, seed, cfg, [[idx]], wall)
+    ref = alone.get(idx) if alone else None
+    side = pred_a if a.get(idx) != ref else pred_b
+    trials = 0
+    changed = True
+    while changed and trials < 40 and len(side) > 1:
+        changed = False
+        half = len(side) // 2
+        cands = [side[:half], side[half:]] + [side[:i] + side[i + 1:] for i in range(len(side))][:6]
+        outs = run_sequences(pid, seed, cfg, [c + [idx] for c in cands], wall)
+        trials += len(cands)
+        for c, o in zip(cands, outs):
+            if o is not None and o.get(idx) != ref:
+                side = c
+                changed = True
+                break
+    return {"property": pid, "signature": {"property": pid, "invariant": "I3:outcome_depends_on_process_history"},
+            "sig_id": "ph-%d" % idx, "kind": "process_history",
+            "case": {"mode": "process_history", "target": idx, "seed": seed, "tier_cfg": cfg,
+                     "predecessors": side, "reference_predecessors": []},
+            "schedule": {"policy": "-"}, "features": [],
+            "detail": "history #%d gives another outcome digest after histories %s ran in the same interpreter than in a fresh interpreter" % (idx, side)}
+
+
 def run_check(pid, tier, seed, workers=None, cases=None, quiet=False):
     if pid == "C17":
         from .c17_runner import run_check_c17
@@ -154,6 +200,11 @@ def run_check(pid, tier, seed, workers=None, cases=None, quiet=False):
     wall = cfg.get("wall", 900)
     n = cfg["cases"]
     hs = hash_seeds(seed, W)
+    if pid == "C07":
+        # hash randomisation is not what C07 varies; one hash seed everywhere makes the echo worker
+        # differ from the sweep workers in exactly one thing: which histories ran earlier in the process
+        hs = [0] * W
+    echo_hs = 0 if pid == "C07" else 987654321
     print("VERIF_SEED=%d property=%s tier=%s cases=%d workers=%d d42=%s digest=%s" % (
         seed, pid, tier, n, W, d42_src(), src_digest()), flush=True)
 
@@ -166,7 +217,7 @@ def run_check(pid, tier, seed, workers=None, cases=None, quiet=False):
     # determinism echo: the first K cases again, in another interpreter, other hash seed
     K = min(cfg.get("echo", 48), n)
     jobs.append(({"property": pid, "mode": "sweep", "seed": seed, "first": 0, "last": K,
-                  "step": 1, "tier_cfg": cfg, "shrink_s": 0, "known": known}, 987654321))
+                  "step": 1, "tier_cfg": cfg, "shrink_s": 0, "known": known}, echo_hs))
     # directed cases of the known-findings file
     directed = [e for e in known if e.get("directed")]
     if directed:
@@ -245,7 +296,16 @@ def run_check(pid, tier, seed, workers=None, cases=None, quiet=False):
                     det["compared"] += 1
                     if case_digests[k] != v:
                         det["mismatches"].append(k)
-    if det["mismatches"]:
+    history_viol = []
+    if det["mismatches"] and pid == "C07":
+        # C07: the outcome of a history depends on what the process executed before it
+        for idx in det["mismatches"][:2]:
+            v = process_history_violation(pid, seed, cfg, idx, W, wall)
+            if v is None:
+                harness_errors.append({"type": "harness_error", "error": "C07 echo mismatch for case %d did not reproduce in fresh interpreters (flaky nondeterminism)" % idx})
+            else:
+                history_viol.append(v)
+    elif det["mismatches"]:
         harness_errors.append({"type": "harness_error",
                                "error": "nondeterminism: case digests differ between interpreters for cases %s" % det["mismatches"][:10]})
 
@@ -269,6 +329,7 @@ def run_check(pid, tier, seed, workers=None, cases=None, quiet=False):
                     v["pythonhashseed"] = ent["directed"].get("pythonhashseed", 0)
                     v["regression_of"] = ent["id"]
                     new_viol.append(v)
+    new_viol.extend(history_viol)
     by_sig = {}
     for v in violations:
         kf = v["kf"] if "kf" in v else classify(v, known)
@@ -348,6 +409,17 @@ def run_replay(pid, path):
     if pid == "C17" and rep.get("kind") == "cross_interpreter":
         from .c17_runner import run_replay_c17
         return run_replay_c17(path, rep)
+    if rep["violation"].get("kind") == "process_history":
+        c = rep["violation"]["case"]
+        a, b = run_sequences(pid, c["seed"], c["tier_cfg"], [c["predecessors"] + [c["target"]],
+                                                              c["reference_predecessors"] + [c["target"]]], 600)
+        if a and b and a.get(c["target"]) != b.get(c["target"]):
+            print("VIOLATION property=%s replay=%s" % (pid, path))
+            print("  history #%d: digest %s after predecessors %s, %s in a fresh interpreter" % (
+                c["target"], a.get(c["target"]), c["predecessors"], b.get(c["target"])))
+            return 1
+        print("NOT-REPRODUCED property=%s replay=%s" % (pid, path))
+        return 0
     cfg = dict(TIERS[pid]["quick"])
     lines = run_workers([({"property": pid, "mode": "replay", "replay": rep, "tier_cfg": cfg},
                           rep.get("pythonhashseed", 0))], 300)[0]
